@@ -384,8 +384,8 @@ class SpwScenario:
 
 # -- sensor cache --------------------------------------------------------------------------------
 
-SENSOR_KEYS = ['foo', 'bar', 'cat', 'Virt/a/sum', 'Virt2/a/top']
-SENSOR_KINDS = 'r;r;r;v:0,1;v:3,0'
+SENSOR_KEYS = ['foo', 'bar', 'cat', 'Virt/a/sum', 'Virt2/a/top', 'nope', 'Virt3/a/broken']
+SENSOR_KINDS = 'r;r;r;v:0,1;v:3,0;m;v:0,5'
 
 
 def _virt_sum(cache, name, x):
@@ -398,6 +398,13 @@ def _virt_sum(cache, name, x):
 def _virt_top(cache, name, x):
     """virtual sensor over a virtual sensor"""
     v = cache.get(f'Virt/{x}/sum') * 2.0 + cache.get('foo')
+    cache[name] = v
+    return v
+
+
+def _virt_broken(cache, name, x):
+    """virtual sensor whose creation asks for an unknown sensor: the KeyError leaves two nested `get` calls"""
+    v = cache.get('foo') + cache.get('nope')
     cache[name] = v
     return v
 
@@ -418,7 +425,7 @@ class CacheScenario:
         for name, ts, vals in [('foo', [4.0, 7.0], [3.0, 6.0]), ('bar', [1.0, 8.0], [10.0, 24.0]),
                                ('cat', [2.0, 6.0], ['hello', 'world'])]:
             data[name] = SimpleSensorGetter(name, np.asarray(ts), np.asarray(vals))
-        virtual = {'Virt/{x}/sum': _virt_sum, 'Virt2/{x}/top': _virt_top}
+        virtual = {'Virt/{x}/sum': _virt_sum, 'Virt2/{x}/top': _virt_top, 'Virt3/{x}/broken': _virt_broken}
         cache = SensorCache(data, timestamps=np.arange(10.), dump_period=1.0, keep=slice(2, 8), virtual=virtual)
         self.cache = cache
         self.get_code = SensorCache.get.__code__
@@ -434,7 +441,11 @@ class CacheScenario:
             out = []
             for how, k in program:
                 name = SENSOR_KEYS[k]
-                out.append(self.cache[name] if how == 'item' else self.cache.get(name))
+                try:
+                    out.append(self.cache[name] if how == 'item' else self.cache.get(name))
+                except KeyError:
+                    # what get_with_fallback() does with an unknown name: note it and carry on
+                    out.append('KeyError')
             return canon(out)
         return fn
 
@@ -827,6 +838,10 @@ def variants(ctx):
                                             [[['item', 4]], [['get', 4]]])), b2, q(400, 4000)))
     out.append(('cache', dict(programs=pick([[['get', 3]], [['item', 3]], [['get', 2], ['item', 1]]],
                                             [[['get', 4]], [['item', 1]], [['get', 0]]])), b2, q(300, 3000)))
+    # lookups that raise (unknown name; creation function that asks for one) before and between good ones
+    out.append(('cache', dict(programs=pick([[['get', 5], ['get', 0]], [['item', 2], ['get', 3]]],
+                                            [[['get', 6], ['item', 1]], [['get', 3]]],
+                                            [[['item', 5], ['get', 6]], [['get', 6], ['item', 0]]])), b2, q(300, 3000)))
     # _Pool: borrow / return, bodies that raise
     out.append(('pool', dict(plans=pick(['11', '1'], ['11', '11'], ['10', '11'])), q(3, 4), q(500, 6000)))
     out.append(('pool', dict(plans=pick(['11', '1', '1'], ['1', '01', '11'])), b2, q(350, 5000)))
